@@ -127,6 +127,10 @@ GCopy == /\ "copy" \in Groups /\ LeafMutable /\ nmut < MutDepth
                   snr \in {WR, WR + 1} \cup (IF WR > 0 THEN {WR - 1} ELSE {}) :
                   /\ (snc = 0 <=> snr = 0)
                   /\ Do(op, [sk |-> sk, snc |-> snc, snr |-> snr, src |-> SrcVals(snc * snr)], TRUE)
+            \* a third-party SOURCE that reports a width but no rows (the traits do not force empties to be (0, 0)): its
+            \* size differs from that of every receiver of the library's own types
+            \/ \E op \in {"copy_from_toodee", "clone_from_toodee"}, snc \in 1..2 :
+                  Do(op, [sk |-> "lines", snc |-> snc, snr |-> 0, src |-> << >>], TRUE)
             \/ \E tc \in 0..WC, tr \in 0..WR, bc \in 0..WC, br \in 0..WR, dc \in Ixs(WC), dr \in Ixs(WR) :
                   /\ tc <= bc /\ tr <= br
                   /\ Do("copy_within", [tl |-> <<tc, tr>>, br |-> <<bc, br>>, d |-> <<dc, dr>>], TRUE)
